@@ -7,7 +7,7 @@ Modes (argv[1]):
   cases <cases.json> <out>     every case TLC enumerated: build through the API, write, read, write again
   random <out>                 seeded random values beyond the enumerated bounds
   samples <out>                sample files under /repo/tests as Read; Write; Read traces
-  image <edges.json> <out>     every transition of the scenes.image container model, replayed by its BFS path
+  image <edges.json> [lo hi] <out>   every transition (or the slice lo:hi) of the scenes.image container model, replayed by its BFS path
   replay <replay.json> <out>
 """
 from __future__ import annotations
@@ -524,22 +524,40 @@ def abs_scene(sc: list) -> dict:
 NAMES = {'k1': ['scenes/npc/Alyx_intro.vcd', 'SCENES\\NPC\\alyx_INTRO.VCD'], 'k2': ['barney/hello.vcd'], 'k3': ['scenes\\z.vcd']}
 
 
+def own_crc(name: str) -> int:
+    """The harness's own reading of the documented rule: lower case, backslashes, under scenes\\, CRC32."""
+    import zlib
+    norm = name.lower().replace('/', '\\')
+    if not norm.startswith('scenes\\'):
+        norm = 'scenes\\' + norm
+    return zlib.crc32(norm.encode('ascii')) & 0xFFFFFFFF
+
+
+KEY_OF_CRC = {own_crc(n): k for k, names in NAMES.items() for n in names}
+
+
 class ImageWorld:
-    """A real scenes.image dictionary and saved files, driven by the container model's actions."""
+    """A real scenes.image dictionary and saved files, driven by the container model's actions.
+    Dictionary keys are reported by the name class (k1..k3) their checksum belongs to."""
     def __init__(self, scenes: dict) -> None:
         self.scenes = scenes       # scene id -> abstract scene
         self.img: dict = {}
         self.slots: dict = {}
-        self.key_of: dict = {}
-        self.scene_of: dict = {}
+        self.scene_of: dict = {}   # id(entry) or data bytes -> scene id
 
     def project(self) -> dict:
         out = {}
         for crc, e in self.img.items():
-            out[self.key_of.get(crc, hex(crc))] = {
+            out[KEY_OF_CRC.get(crc, hex(crc))] = {
                 'crc': crc_limbs(crc), 'own_crc': crc_limbs(e.checksum), 'dur': e.duration_ms, 'speak': e.last_speak_ms,
                 'sounds': list(e.sounds), 'parsed': isinstance(e._data, Scene), 'named': e.filename != ''}
         return out
+
+    def entry_at(self, k: str):
+        for crc, e in self.img.items():
+            if KEY_OF_CRC.get(crc) == k:
+                return crc, e
+        raise KeyError(k)
 
     def apply(self, a: dict) -> dict:
         op = a['op']
@@ -548,17 +566,26 @@ class ImageWorld:
             if op == 'add':
                 fname = NAMES[a['k']][a['v'] - 1]
                 entry = Entry.from_scene(fname, build_scene(abs_scene(self.scenes[a['s']])))
-                self.key_of[entry.checksum] = a['k']
-                self.scene_of[entry.checksum] = a['s']
                 self.img[entry.checksum] = entry
+                res['want_crc'] = crc_limbs(own_crc(fname))
             elif op == 'drop':
-                for crc in [c for c, k in self.key_of.items() if k == a['k'] and c in self.img]:
-                    del self.img[crc]
+                crc, _ = self.entry_at(a['k'])
+                del self.img[crc]
+            elif op == 'rename':
+                _, entry = self.entry_at(a['k'])
+                entry.filename = NAMES[a['to']][0]
+                res['want_crc'] = crc_limbs(own_crc(NAMES[a['to']][0]))
             elif op == 'save':
                 buf = io.BytesIO()
-                choreo.save_scenes_image_sync(buf, self.img, version=a['ver'])
-                self.slots[a['slot']] = buf.getvalue()
-                res['file'] = decode_image(buf.getvalue())
+                choreo.save_scenes_image_sync(buf, self.img if a['how'] == 'dict' else list(self.img.values()), version=a['ver'])
+                data = buf.getvalue()
+                self.slots[a['slot']] = data
+                res['file'] = decode_image(data)
+                res['h1'] = sha(data)
+                # write -> read -> write: the file read back and written again (as a dictionary)
+                again = io.BytesIO()
+                choreo.save_scenes_image_sync(again, choreo.parse_scenes_image(io.BytesIO(data)), version=a['ver'])
+                res['h2'] = sha(again.getvalue())
             elif op in ('load', 'merge'):
                 res['slotfile'] = decode_image(self.slots[a['slot']])
                 loaded = choreo.parse_scenes_image(io.BytesIO(self.slots[a['slot']]))
@@ -567,9 +594,10 @@ class ImageWorld:
                 else:
                     self.img.update(loaded)
             elif op == 'touch':
-                for crc in [c for c, k in self.key_of.items() if k == a['k'] and c in self.img]:
-                    res['scene'] = proj_scene(self.img[crc].data)
-                    res['want_scene'] = abs_scene(self.scenes[self.scene_of[crc]])
+                _, entry = self.entry_at(a['k'])
+                res['scene'] = proj_scene(entry.data)
+                if a.get('scene'):
+                    res['want_scene'] = abs_scene(self.scenes[a['scene']])
             else:
                 raise ValueError(op)
         except Exception as exc:
@@ -577,20 +605,27 @@ class ImageWorld:
         return res
 
 
-def image_edges(edge_file: str, out: hlib.RecWriter, stats: dict) -> None:
+def image_records(world: 'ImageWorld', hist: list, consts: dict, src: str, only_last: bool):
+    for j, a in enumerate(hist):
+        pre = world.project()
+        res = world.apply(a)
+        if not only_last or j == len(hist) - 1:
+            yield {'k': 'image', 'a': a, 'pre': pre, 'res': res, 'post': world.project(), 'scenes': consts['scenes'],
+                   'sig': {'kind': 'image', 'action': a['op'], 'src': src}, 'hist': hist, 'consts': consts}
+
+
+def image_edges(edge_file: str, out: hlib.RecWriter, stats: dict, lo: int = 0, hi: int | None = None) -> None:
     data = json.load(open(edge_file))
     consts, edges = data['consts'], data['edges']
     key = lambda s: json.dumps(s, sort_keys=True)
     paths = hlib.bfs_paths(edges, key)
-    for t, e in enumerate(edges):
-        world = ImageWorld(consts['scenes'])
-        hist = paths[key(e['s'])] + [e['a']]
-        for j, a in enumerate(hist):
-            pre = world.project()
-            res = world.apply(a)
-            if j == len(hist) - 1:
-                out.write({'k': 'image', 'a': a, 'pre': pre, 'res': res, 'post': world.project(), 'scenes': consts['scenes'],
-                           'sig': {'kind': 'image', 'action': a['op'], 'src': 'edge'}, 'hist': hist, 'consts': consts})
+    for e in edges[lo:hi]:
+        a = dict(e['a'])
+        if a['op'] == 'touch':      # which scene the entry holds is the model's knowledge
+            a['scene'] = e['s']['img'][a['k']]['scene']
+        hist = paths[key(e['s'])] + [a]
+        for rec in image_records(ImageWorld(consts['scenes']), hist, consts, 'edge', True):
+            out.write(rec)
         stats['edges_replayed'] = stats.get('edges_replayed', 0) + 1
 
 
@@ -782,13 +817,8 @@ def run_replay(path: str, out: hlib.RecWriter) -> None:
         out.write(roundtrip(rec['fmt'], rec['orig'], 'replay', rec.get('feat', '')))
     elif rec['k'] == 'image':
         consts = rec['consts']
-        world = ImageWorld(consts['scenes'])
-        for j, a in enumerate(rec['hist']):
-            pre = world.project()
-            res = world.apply(a)
-            if j == len(rec['hist']) - 1:
-                out.write({'k': 'image', 'a': a, 'pre': pre, 'res': res, 'post': world.project(), 'scenes': consts['scenes'],
-                           'sig': {'kind': 'image', 'action': a['op'], 'src': 'replay'}, 'hist': rec['hist'], 'consts': consts})
+        for r in image_records(ImageWorld(consts['scenes']), rec['hist'], consts, 'replay', True):
+            out.write(r)
     else:
         run_samples(out, {})
 
@@ -804,7 +834,8 @@ def main() -> None:
     elif mode == 'samples':
         run_samples(out, stats)
     elif mode == 'image':
-        image_edges(sys.argv[2], out, stats)
+        rng_ = [int(x) for x in sys.argv[3:-1]]
+        image_edges(sys.argv[2], out, stats, *rng_)
     elif mode == 'replay':
         run_replay(sys.argv[2], out)
     else:
